@@ -56,6 +56,17 @@ TPBodyOK(kinds, avail, body) ==
                /\ LET vs == Chunks4(ps[i].val) IN
                     \A j \in DOMAIN avail : avail[j] = "grease" => IsGreaseQuicVersion(vs[j + 1])
 
+\* GREASETransportParameter with an IdOverride (u_quic_transport_parameters.go:92-97): a valid GREASE override is used as it
+\* is, anything else is replaced by a generated id - whatever the override, the id returned and the id on the wire are
+\* in the reserved space.  ov, id: 8-byte big-endian; body: TransportParameters{p}.Marshal() of a fresh parameter.
+OverrideOK(ov, id, body) ==
+  /\ IsGreaseTPId(id) /\ IsVarint62(id)
+  /\ (IsGreaseTPId(ov) => id = ov)
+  /\ IsBytes(body) /\ TPListOK(body, 1)
+  /\ LET ps == ParseTPs(body, 1) IN
+       /\ Len(ps) = 1 /\ IsGreaseTPId(ps[1].id8)
+       /\ (IsGreaseTPId(ov) => ps[1].id8 = ov)
+
 WhyTPBody(kinds, avail, body) ==
   IF ~(IsBytes(body) /\ TPListOK(body, 1)) THEN "list-malformed" ELSE
   LET ps == ParseTPs(body, 1) IN
